@@ -568,6 +568,10 @@ func (mru *memRepoUpload) Write(p []byte) (int, error) {
 func (mru *memRepoUpload) Close() error {
 	mru.mu.Lock()
 	defer mru.mu.Unlock()
+	// verify session still exists, a canceled or expired upload must not become a blob
+	if _, err := mru.mr.uploads.Get(mru.sessionID); err != nil {
+		return fmt.Errorf("session expired %s: %w", mru.sessionID, err)
+	}
 	if mru.expect != "" && mru.d.Digest() != mru.expect {
 		return fmt.Errorf("digest mismatch, expected %s, received %s", mru.expect, mru.d.Digest())
 	}
